@@ -211,3 +211,41 @@ def to_smt2(hyps, goal):
     s.add(*hyps)
     s.add(z3.Not(goal))
     return s.to_smt2()
+
+
+def hyps_satisfiable(hyps, timeout_ms=3000):
+    """reachability twin: are the hypotheses (carriers, definedness, path condition, axioms) satisfiable?
+    Tries a few simple candidate assignments by evaluation before asking the solver."""
+    hyps = list(hyps)
+    vars_ = {}
+
+    def collect(e, seen):
+        if e.get_id() in seen:
+            return
+        seen.add(e.get_id())
+        if z3.is_const(e) and e.decl().kind() == z3.Z3_OP_UNINTERPRETED:
+            vars_[str(e)] = e
+        for c in e.children():
+            collect(c, seen)
+    seen = set()
+    for h in hyps:
+        collect(h, seen)
+    for rv, iv, bv in ((1, 0, True), (2, 1, False), ("1/2", 0, True)):
+        sub = []
+        for v in vars_.values():
+            if v.sort() == z3.RealSort():
+                sub.append((v, z3.RealVal(rv)))
+            elif v.sort() == z3.IntSort():
+                sub.append((v, z3.IntVal(iv)))
+            elif v.sort() == z3.BoolSort():
+                sub.append((v, z3.BoolVal(bv)))
+        try:
+            if all(z3.is_true(z3.simplify(z3.substitute(h, *sub))) for h in hyps):
+                return "sat"
+        except z3.Z3Exception:
+            break
+    s = z3.Solver()
+    s.set("timeout", timeout_ms)
+    s.add(*hyps)
+    r = _check(s)
+    return "sat" if r == z3.sat else "unsat" if r == z3.unsat else "n/a"
